@@ -63,7 +63,7 @@ def header(prog, ncpu):
     h.update({'ev': 'reset', 'ep': prog['id'], 'mode': 'free' if prog['sched']['kind'] == 'free' else 'gated',
               'wk': cfg.get('wk', 'plain'), 'hconc': cfg.get('conc', 1), 'ncpu': ncpu, 'queues': queues, 'jobs': jobs, 'batches': batches,
               'clients': [c['name'] for c in prog['clients']], 'expiry': cfg.get('expiry_us', 0), 'ratio': cfg.get('ratio', 0),
-              'ctx': bool(cfg.get('ctx')), 'strategy': cfg.get('strategy') or 'rr', 'idgen': bool(cfg.get('idgen')), 'wsids': bool(cfg.get('wsids')),
+              'ctx': bool(cfg.get('ctx')), 'strategy': cfg.get('strategy') or 'rr', 'idgen': bool(cfg.get('idgen')), 'wsids': bool(cfg.get('wsids')), 'quiet': bool(cfg.get('quiet')),
               'nobind': bool(cfg.get('nobind')), 'family': prog.get('family', ''), 'consumers': cfg.get('consumers') or 1, 'preload': pre})
     # the handles of the other consumers of a shared queue are the same queue
     if (cfg.get('consumers') or 1) > 1:
